@@ -91,7 +91,7 @@ fn matcher(ins: &[POp], outs: &[PathOp], i: usize, o: usize, cursor: Option<P2>,
                     for s in curve.sample(64) {
                         dev = dev.max(dist_polyline(s, emitted));
                     }
-                    if dev > 8.0 * tol + 1e-3 {
+                    if dev > 8.0 * tol + 1e-4 {
                         let e = Fail { clause: "deviation-exceeds-8x-tolerance", detail: format!("input op {} ({:?}) from start ({},{}): polyline of {} segment(s) deviates {:.4} from the curve, tolerance {}", i, ins[i], curve.start().0, curve.start().1, k, dev, tol), depth: i };
                         if best_err.as_ref().map_or(true, |b| b.depth <= e.depth) {
                             best_err = Some(e);
@@ -302,8 +302,10 @@ impl Check for C16 {
     fn run(&self, run: &Run) {
         let q = run.tier.quick();
         run.rule("every op string over the alphabet is flattened with every tolerance; the output is matched against the input op by op: M/L/Z preserved bit-exactly and in order, each curve replaced by LineTos on the f64 curve at non-decreasing parameter starting from the model cursor (after Close: the subpath start; no cursor: the first control point) and ending bit-exactly at the end point, deviation <= 8 x tolerance; fill(path) and fill(flatten(0.01)) may differ only within 1 px (+ deviation) of the outline; non-trivial = the string contains a curve");
-        run.assume("the clause 'deviation shrinks with tolerance' is checked as the absolute bound 8 x tolerance at four tolerances spanning two orders of magnitude, not as strict monotonicity between neighbouring tolerances");
+        run.assume("the clause 'deviation shrinks with tolerance' is checked as the absolute bound 8 x tolerance at six tolerances spanning four orders of magnitude (0.0002 .. 2), not as strict monotonicity between neighbouring tolerances");
         let tols: Vec<f32> = vec![0.01, 0.1, 0.5, 2.0];
+        // tolerances far below a pixel (a floor on the tolerance shows as a deviation that stops shrinking)
+        let fine: Vec<f32> = vec![0.001, 0.0002];
         let pts9: Vec<(f32, f32)> = vec![(0.7, 0.9), (5.3, 1.1), (9.9, 0.4), (1.2, 5.5), (5.0, 5.1), (10.4, 6.2), (0.3, 10.1), (6.1, 9.7), (9.2, 10.6)];
         let pts4: Vec<(f32, f32)> = vec![(0.7, 0.9), (9.9, 1.4), (1.2, 9.5), (10.4, 10.2)];
         let ctrl: Vec<(f32, f32)> = vec![(5.6, -3.1), (13.7, 5.2), (-2.2, 6.3), (4.9, 5.0)];
@@ -357,6 +359,13 @@ impl Check for C16 {
                     }
                 }
             });
+        }
+        if q {
+            strings(run, "9-point alphabet depth 1, fine tolerances", &alphabet(&pts9, &ctrl), 1, &fine);
+            strings(run, "4-point alphabet depth 2, fine tolerances", &alphabet(&pts4, &ctrl[..3]), 2, &fine);
+        } else {
+            strings(run, "9-point alphabet depth 2, fine tolerances", &alphabet(&pts9, &ctrl), 2, &fine);
+            strings(run, "4-point alphabet depth 3, fine tolerances", &alphabet(&pts4, &ctrl[..3]), 3, &fine);
         }
         if q {
             strings(run, "9-point alphabet depth 2", &alphabet(&pts9, &ctrl), 2, &tols);
